@@ -5,6 +5,7 @@ package main
 
 import (
 	"fmt"
+	"os"
 
 	"verif/lib/gen"
 	"verif/lib/mon"
@@ -18,7 +19,24 @@ func runLong(c *mon.Case) {
 	if byWeights {
 		L = r.Range(200, 2000)
 	}
-	base := []byte(r.Str(L, aa))
+	// composition: uniform, or dominated by a few residues (the mean substitution rate of the residues present then
+	// differs from 1: the distance of a nearly identical pair is not its proportion of differences)
+	comp := aa
+	slow := false
+	if r.Chance(0.7) {
+		dom := ""
+		for k := r.Range(2, 5); k > 0; k-- {
+			dom += string(aa[r.Intn(20)])
+		}
+		if r.Bool() {
+			dom, slow = "WCFYH"[:r.Range(2, 5)], true // residues that change slowly under every empirical matrix
+		}
+		comp = aa
+		for k := 0; k < 12; k++ {
+			comp += dom
+		}
+	}
+	base := []byte(r.Str(L, comp))
 	close1 := append([]byte{}, base...)
 	// k substitutions of k different kinds (ordered residue pairs), far apart
 	k := r.Range(15, 70)
@@ -38,7 +56,7 @@ func runLong(c *mon.Case) {
 	far := []byte(mutate(r, string(base), 0.05+0.3*r.Float(), aa))
 	rows := []string{string(base), string(close1), string(far)}
 	model := r.Intn(len(modelNames))
-	o := wo(model, r.Bool(), false, 0, false, nil)
+	o := wo(model, r.Bool() || slow, false, 0, false, nil) // model frequencies with the slow composition: the mean rate of the data is not 1
 	if byWeights {
 		// one site weighs 10^6 - 10^7 times the others: the differing sites are each below 1e-5 of the total
 		w := make([]float64, L)
@@ -63,6 +81,7 @@ func runLong(c *mon.Case) {
 		oo.Weights = oo.Weights[:50] // only for the text of a report
 	}
 	mo, _ := checkMatrix(c, rows, o, D, fmt.Sprintf("MLDist on %d sites, %d substitutions of distinct kinds between rows 0 and 1", L, k))
+	c.Max("long:gain-over-the-whole-alignment-x1e6", int(mo.maxGain*float64(L)*1e6))
 	if mo.classes != nil {
 		if byWeights {
 			c.Count("long:dominating-weight")
@@ -72,4 +91,7 @@ func runLong(c *mon.Case) {
 		c.NonTrivial("long", fmt.Sprint(L, k, model, c.Idx))
 	}
 	c.Note("D[0][1]=%v D[0][2]=%v", D[0][1], D[0][2])
+	if os.Getenv("VERIF_DEBUG") != "" {
+		fmt.Fprintf(os.Stderr, "DEBUG long: L=%d k=%d p=%.6g D01=%.6g ratio=%.4f maxGain=%.3g total-gain=%.3g model=%s freqs=%v\n", L, k, float64(k)/float64(L), D[0][1], D[0][1]/(float64(k)/float64(L)), mo.maxGain, mo.maxGain*float64(L), o.ModelName, o.ModelFreqs)
+	}
 }
